@@ -1,6 +1,7 @@
 import SamVerif.Props.C04
 import SamVerif.Props.C04b
 import SamVerif.Props.C04c
+import SamVerif.Props.C04d
 /-! Axiom audit of every C04 property theorem (parsed by vlib/common.py). -/
 open SamVerif.Backends
 #print axioms bin_agree_counterexample
@@ -44,3 +45,5 @@ open SamVerif.Backends
 #print axioms match_agree
 #print axioms variant_test_loose_counterexample
 #print axioms wf_needed
+#print axioms reserved_covered
+#print axioms mangle_injective
